@@ -50,6 +50,13 @@ class Opacity(Logger, Citable):
         """
         raise NotImplementedError
 
+    def _bracketing_filter(self, wngrid):
+        native = self.wavenumberGrid
+        start = max(np.searchsorted(native, wngrid.min(), side='right') - 1, 0)
+        stop = min(np.searchsorted(native, wngrid.max(), side='left'),
+                   native.shape[0] - 1)
+        return np.arange(start, stop + 1)
+
     def opacity(self, temperature, pressure, wngrid=None):
 
         if wngrid is None:
@@ -57,6 +64,12 @@ class Opacity(Logger, Citable):
         else:
             wngrid_filter = np.where((self.wavenumberGrid >= wngrid.min()) & (
                 self.wavenumberGrid <= wngrid.max()))[0]
+            if not np.array_equal(self.wavenumberGrid.take(wngrid_filter),
+                                  wngrid):
+                # We will interpolate: include the native points that bracket
+                # the requested range so that its first and last points are
+                # interpolated (not held flat) exactly as on a wider grid
+                wngrid_filter = self._bracketing_filter(wngrid)
 
         orig = self.compute_opacity(temperature, pressure, wngrid_filter)
 
